@@ -10,10 +10,12 @@ pub fn entry() -> crate::Entry {
     crate::Entry { id: "C01", run, space, replay }
 }
 
-pub const ATOMS: [(&str, &str); 19] = [
+pub const ATOMS: [(&str, &str); 22] = [
     ("plain", "a"), ("amp", "&"), ("lt", "<"), ("gt", ">"), ("dquote", "\""), ("apos", "'"), ("space", " "), ("tab", "\t"), ("lf", "\n"),
     ("cr", "\r"), ("nbsp", "\u{a0}"), ("ideographic-space", "\u{3000}"), ("latin1", "é"), ("non-bmp", "\u{1F600}"), ("cdata-end", "]]>"),
     ("amp-entity", "&amp;"), ("digit", "1"), ("bool-word", "TRUE"), ("error-word", "#N/A"),
+    // text that LOOKS like the OOXML _xHHHH_ escape (ST_Xstring) is still the user's text, character for character
+    ("xstring-letter", "_x0041_"), ("xstring-cr", "_x000D_"), ("xstring-underscore", "_x005F_"),
 ];
 pub const ERRORS: [&str; 7] = ["#DIV/0!", "#N/A", "#NAME?", "#NULL!", "#NUM!", "#REF!", "#VALUE!"];
 pub const POSITIONS: [&str; 9] = ["A1", "B1", "A2", "C3", "Z1", "AA1", "XFD1", "A1048576", "XFD1048576"];
